@@ -638,6 +638,10 @@ func (st *Stack) compactRange(first, last int, expiration *LogExpirationConfig) 
 	if first >= last && expiration == nil {
 		return true, nil
 	}
+	if first > last {
+		// An empty stack: there is nothing to compact or to expire.
+		return true, nil
+	}
 	st.Stats.Attempts++
 
 	lockFileName := st.listFile + ".lock"
